@@ -17,7 +17,7 @@ from collections.abc import Mapping
 import numpy as np
 
 from vf.core import HarnessError
-from vf.refmodels.config_model import MISSING, ConfigModel, DeviceRejected, OutOfDomain, norm_key
+from vf.refmodels.config_model import MISSING, ConfigModel, DeviceRejected, OutOfDomain, cp, norm_key
 
 PROPERTY = "C19"
 LEVEL = "exploration"
@@ -110,7 +110,7 @@ def plan(tier, seed):
     for store in STORES:
         for a, b in itertools.product(range(NALPHA), repeat=2):
             specs.append({"kind": "exh", "store": store, "prefix": [a, b], "depth": depth})
-    nrand, per = (360, 10) if tier == "quick" else (3000, 40)
+    nrand, per = (360, 10) if tier == "quick" else (2400, 40)
     for r in range(nrand):
         specs.append({"kind": "rand", "store": STORES[r % 3], "n": per, "len": 20})
     # interleave so that every worker sees all kinds early (soft budget cuts the tail, not a kind)
@@ -192,8 +192,8 @@ def _restore_globals(st):
     C = st["C"]
     cfg, dfl = st["snap"]
     C.config.clear()
-    C.config.update(copy.deepcopy(cfg))
-    C.defaults[:] = [copy.deepcopy(d) for d in dfl]
+    C.config.update(cp(cfg))
+    C.defaults[:] = [cp(d) for d in dfl]
 
 
 def canon(v):
@@ -214,6 +214,23 @@ def canon_model(v):
     if isinstance(v, dict):
         return ("map", tuple(sorted((k, (canon_model(x),)) for k, x in v.items())))
     return canon(v)
+
+
+def same(r, m):
+    """real value (any key spelling) equals model value (normalised keys); type-aware on leaves"""
+    if isinstance(r, Mapping):
+        if not isinstance(m, dict) or len(r) != len(m):
+            return False
+        for k, v in r.items():
+            nk = k.replace("-", "_") if isinstance(k, str) else k
+            if nk not in m or not same(v, m[nk]):
+                return False
+        return True
+    if isinstance(m, dict):
+        return False
+    if r is MISSING or m is MISSING:
+        return r is m
+    return type(r) is type(m) and r == m
 
 
 class _Body(Exception):
@@ -310,7 +327,7 @@ class Runner:
         for key in self.probes:
             r = self.real_get(key)
             e = m.get(key)
-            if canon(r) != canon_model(e):
+            if not same(r, e):
                 if isinstance(r, Mapping) and isinstance(e, dict):
                     sub = _first_diff(r, e, key + ".")  # localise the differing leaf (classifier fields)
                     if sub:
@@ -319,8 +336,7 @@ class Runner:
                 break
         if bad is None:
             # the whole store, spelling-normalised (nothing else changed)
-            rc, mc = canon(self.cfg), canon_model(m.cfg)
-            if rc != mc:
+            if not same(self.cfg, m.cfg):
                 diff = _first_diff(self.cfg, m.cfg)
                 bad = (diff, self.real_get(diff) if diff else None, m.get(diff) if diff else None)
         path = ConfigModel.path(bad[0]) if bad and bad[0] else ()
@@ -340,7 +356,7 @@ class Runner:
         return tok
 
     def _set_args(self, op):
-        items = list({k: (self._dev(v) if k == "device" else copy.deepcopy(v)) for k, v in op["items"]}.items())  # a mapping: a repeated key keeps its first position and its last value
+        items = list({k: (self._dev(v) if k == "device" else cp(v)) for k, v in op["items"]}.items())  # a mapping: a repeated key keeps its first position and its last value
         if op["form"] == "kw":
             return items, None, dict(items)
         return items, dict(items), {}
@@ -359,7 +375,7 @@ class Runner:
         mitems = self._model_items(op, items)
         has_dev = any(k == "device" for k, _ in mitems)
         dev_before = self.real_get("device")
-        saved = copy.deepcopy(m.cfg)
+        saved = cp(m.cfg) if has_dev else None
         rejected = False
         try:
             m.set(mitems)
@@ -444,8 +460,8 @@ class Runner:
         self.compare("get_vs_model")
 
     def op_ud(self, op):
-        new = copy.deepcopy(op["new"])
-        self.model.update_defaults(copy.deepcopy(new))
+        new = cp(op["new"])
+        self.model.update_defaults(cp(new))
         self.C.update_defaults(new, **self.kw_cd)
         for k, v in op["new"].items():
             self._note_write(k, v)
@@ -747,8 +763,7 @@ def _run_history(ctx, store, prologue, ops, tag):
             _restore_globals(st)
     if store == "global":
         C = st["C"]
-        same = canon(C.config) == canon(st["snap"][0]) and len(C.defaults) == len(st["snap"][1])
-        if not same:
+        if not (C.config == st["snap"][0] and list(C.defaults) == st["snap"][1]):
             raise HarnessError("module globals not restored")
     ctx.count("histories")
     ctx.count("operations", r.nops)
